@@ -876,9 +876,12 @@ fn error_kind(p: &str) -> String {
             }
         }
     }
+    // a JUMPI whose *target* is rejected still has its fall-through outcome: the instruction behind it runs, in both modes
+    let bad_target = ["InvalidOffsetForJump", "InvalidJumpTarget", "NonExistentJumpTarget", "NoConcreteJumpDestination"].contains(&kind.as_str());
+    let fallthrough_dropped = via_jumpi && bad_target && out.iter().any(|(_, _, visits)| visits[code.len() - 1] == 0);
     format!(
-        "{{\"violates\": false, \"kind\": \"{}\", \"jumpi\": {}, \"strict_ok\": {}, \"permissive_ok\": {}, \"gas_location_wrong\": {}, \"strict_error\": \"{}\", \"permissive_error\": \"{}\", \"code\": \"{}\"}}",
-        kind, via_jumpi, out[0].0, out[1].0, gas_location_wrong, out[0].1, out[1].1, hex(&code)
+        "{{\"violates\": false, \"kind\": \"{}\", \"jumpi\": {}, \"strict_ok\": {}, \"permissive_ok\": {}, \"gas_location_wrong\": {}, \"fallthrough_dropped\": {}, \"strict_error\": \"{}\", \"permissive_error\": \"{}\", \"code\": \"{}\"}}",
+        kind, via_jumpi, out[0].0, out[1].0, gas_location_wrong, fallthrough_dropped, out[0].1, out[1].1, hex(&code)
     )
 }
 
